@@ -28,7 +28,14 @@ func (o *optimizer) optimizeAllFiles(printer FilePrinter) {
 		return
 	}
 
+	// with tests loaded, a non-test file is listed in two variants of its package (p and p [p.test])
+	// that share one *ast.File: optimise (and clean the imports of) every file once
+	done := map[*ast.File]bool{}
 	o.m.Loader.VisitAllFiles(func(f *loader.File) {
+		if done[f.File] {
+			return
+		}
+		done[f.File] = true
 		if !imports.Uses(f, seqPkg.Types) {
 			log.Printf("skip file: %s\n", f.Filename)
 			return
